@@ -136,7 +136,11 @@ Definition handle (req : bytes) : bytes :=
       end
     else if bytes_eqb op (lit "ring") then
       (* ring <S> <CAP> <n> <events as letters A S T W R F> :
-         replays a recorded pipeline trace through the transition system *)
+         replays a recorded pipeline trace through the transition system.
+         <n> = number of A letters of the trace.  The producer's failure path
+         needs no letter of its own: a T that follows the last A with no S in
+         between (A ... T) abandons the buffer of that A; the A stays in the
+         trace.  Output: sent = number of S, abandoned = 1 iff more A than S. *)
       match args with
       | [aS; aC; an; aevs] =>
         let evs := flat_map (fun b => let c := b2n b in
@@ -151,10 +155,52 @@ Definition handle (req : bytes) : bytes :=
           lit "ok safe=" ++ (if run_all_safe S CAP s0 evs then lit "1" else lit "0") ++
           lit " final=" ++ (if Ring.final s then lit "1" else lit "0") ++
           lit " consumed=" ++ dec_of_N (N.of_nat (length (consumed s))) ++
-          lit " inorder=" ++ (if list_nat_eqb (consumed s) (seq 0 (length (consumed s))) then lit "1" else lit "0")
+          lit " inorder=" ++ (if list_nat_eqb (consumed s) (seq 0 (length (consumed s))) then lit "1" else lit "0") ++
+          lit " sent=" ++ dec_of_N (N.of_nat (n_sent evs)) ++
+          lit " abandoned=" ++ (if producer_abandoned evs then lit "1" else lit "0")
         end
       | _ => lit "badargs"
       end
     else lit "badop"
   | [] => lit "empty"
   end.
+
+(* ------------------------------------------------------------------ *)
+(* ring op: replay of recorded traces, producer failure path included  *)
+(* ------------------------------------------------------------------ *)
+
+(* the trace recorded from the real code on a stage-1 failure in the second
+   buffer: acquire, wait, send, acquire, TERMINATOR (buffer 1 withheld), ... *)
+Example ring_op_abandon_real_trace :
+  handle (lit "ring 16 14 2 AWSATRWR") = lit "ok safe=1 final=1 consumed=1 inorder=1 sent=1 abandoned=1".
+Proof. vm_compute. reflexivity. Qed.
+
+(* nothing outstanding / first buffer abandoned *)
+Example ring_op_abandon_first :
+  handle (lit "ring 16 14 1 ATWR") = lit "ok safe=1 final=1 consumed=0 inorder=1 sent=0 abandoned=1".
+Proof. vm_compute. reflexivity. Qed.
+
+(* one and several buffers outstanding when the producer gives up *)
+Example ring_op_abandon_one_outstanding :
+  handle (lit "ring 16 14 2 ASATWRWR") = lit "ok safe=1 final=1 consumed=1 inorder=1 sent=1 abandoned=1".
+Proof. vm_compute. reflexivity. Qed.
+Example ring_op_abandon_many_outstanding :
+  handle (lit "ring 16 14 5 ASASASASATWRWRWRWRWR") = lit "ok safe=1 final=1 consumed=4 inorder=1 sent=4 abandoned=1".
+Proof. vm_compute. reflexivity. Qed.
+
+(* both stages fail: consumer after the producer, and before it *)
+Example ring_op_abandon_then_fail2 :
+  handle (lit "ring 16 14 5 ASASASASATWRFWRWRWRWR") = lit "ok safe=1 final=1 consumed=1 inorder=1 sent=4 abandoned=1".
+Proof. vm_compute. reflexivity. Qed.
+Example ring_op_fail2_then_abandon :
+  handle (lit "ring 16 14 3 ASWRFASWRATWR") = lit "ok safe=1 final=1 consumed=1 inorder=1 sent=2 abandoned=1".
+Proof. vm_compute. reflexivity. Qed.
+
+(* unchanged behaviour on a run without producer failure; a terminator before
+   the last acquire of the run is still rejected *)
+Example ring_op_plain :
+  handle (lit "ring 16 14 2 ASASTWRWRWR") = lit "ok safe=1 final=1 consumed=2 inorder=1 sent=2 abandoned=0".
+Proof. vm_compute. reflexivity. Qed.
+Example ring_op_early_terminator_rejected :
+  handle (lit "ring 16 14 3 ASATWRWR") = lit "rejected".
+Proof. vm_compute. reflexivity. Qed.
